@@ -310,6 +310,8 @@ pub fn c15_full(s: &vt100::Screen) -> Option<Failure> {
         recv.process(&row);
         wrapped = s.row_wrapped(i as u16);
     }
+    // the repository's own protocol (tests/helpers/mod.rs): default pen before the cursor state
+    recv.process(b"\x1b[m");
     recv.process(&s.cursor_state_formatted());
     recv.process(&s.attributes_formatted());
     let want = obs(s);
